@@ -55,6 +55,12 @@ def gen(ck: Check):
         msgs = [(rng.choice([1, 7, 25, 123, 255, 256, 65535]), bytes(rng.randrange(256) for _ in range(rng.choice([0, 1, 3, 17, 200]))))
                 for _ in range(k)]
         cases.append((name, expected, msgs))
+    # frame lengths around every byte boundary of the 16-bit length field (frame = payload + 4 bytes of inner header +
+    # 16 bytes of tag): 255/256, 32767/32768 (sign bit), 65535 (the largest the field can carry)
+    big = [235, 236, 237, 32747, 32748, 40000, 65515] if thorough else [236, 32748, 65515]
+    for j, n in enumerate(big):
+        body = bytes((i * 31 + n) % 251 for i in range(n))
+        cases.append((NAMES[j % len(NAMES)], None, [(7, b"x"), (rng.choice([1, 300]), body), (25, b"tail")]))
     return cases
 
 
